@@ -30,7 +30,7 @@ ASSUMPTIONS = [
     'CSV rule files restricted to patterns whose fault-free migration preserves classification in that very run',
 ]
 RULE = ('scenario = seeded budget (old / new layout, CRLF or LF settings, comment mentioning merchants_file, pre-existing .bak / merchants.rules / '
-        'tally/) x migration command (up|run --migrate, up on a TTY answering y, init in three forms, update -y, update on a TTY) x seams (TTY, peer, '
+        'tally/, config directory reached through a symbolic link) x migration command (up|run --migrate, up on a TTY answering y, init in three forms, update -y, update on a TTY) x seams (TTY, peer, '
         'cwd, pinned date); the golden run gives the effect trace and the list of files read; then: crash before every effect (cuts none/one/half/'
         'midline/midchar/line/minus1/all of the in-flight file), one OSError of every errno legal for the effect kind at every effect, '
         'KeyboardInterrupt at every effect, the disk staying full (ENOSPC) or read-only (EROFS) from every effect on, every path named by the trace '
@@ -67,6 +67,9 @@ def gen_scenario(rng, i):
     base = ''
     if kind == 'csv':
         variant = rng.choice(['up-migrate', 'up-migrate', 'up-tty', 'init', 'init'])
+        force_leftover = i % 8 == 2       # stratified like the settings variants: every batch of eight has one
+        if force_leftover:
+            variant = rng.choice(['up-migrate', 'up-migrate', 'up-tty'])
         if variant == 'init' and rng.random() < 0.4:
             base = 'mybudget/'
             b['base'] = base
@@ -98,6 +101,8 @@ def gen_scenario(rng, i):
             cwd = '.'
         # pre-existing files the migration might clobber
         r = rng.random()
+        if force_leftover:
+            r = 0.9
         if r < 0.12:
             pre[cfg + '/merchant_categories.csv.bak'] = 'Pattern,Merchant,Category,Subcategory\nOLDBACKUP,Old,Misc,Old\n'
             t = files.get(cfg + '/merchant_categories.csv', '')
@@ -129,7 +134,7 @@ def gen_scenario(rng, i):
             if rng.random() < 0.5:
                 files[sp] = 'year: 2020\ndata_sources: []\n'
             extra_s = ['-s', alt]
-        leftover = variant != 'init' and not pre and rng.random() < 0.12
+        leftover = variant != 'init' and not pre and (rng.random() < 0.12 or force_leftover)
         obs = {'argv': ['up', cfg, '--format', 'json', '-v'] + extra_s, 'cwd': '.'}
         if extra_s:
             argv = argv + extra_s
@@ -166,6 +171,13 @@ def gen_scenario(rng, i):
         world[r_] = c
     for r_, c in pre.items():
         world[r_] = c
+    if kind == 'csv' and (i % 8 == 6 or rng.random() < 0.06):
+        # the config directory is a symbolic link (a synced or shared folder): `config` is how the user and settings.yaml spell it
+        cfg_ = base + 'config'
+        moved = [r_ for r_ in world if r_.startswith(cfg_ + '/')]
+        for r_ in moved:
+            world[base + 'store/tally-config/' + r_[len(cfg_) + 1:]] = world.pop(r_)
+        world[cfg_ + '@'] = 'store/tally-config'
     snap = {}
     for r_, c in world.items():
         if c is None:
